@@ -77,6 +77,11 @@ impl Watcher for RecommendedWatcher {
     }
     fn watch(&mut self, path: &Path, _m: RecursiveMode) -> Result<()> {
         if !path.exists() {
+            // back ends differ in how they report a missing path: PathNotFound (default here) or the wrapped io error (inotify)
+            if std::env::var("ZX_NOTIFY_MISSING").map(|v| v == "io").unwrap_or(false) {
+                zx_rt::log(&format!("watch w{} {} -> Io(NotFound)", self.id, path.display()));
+                return Err(Error { kind: ErrorKind::Io(std::io::Error::from(std::io::ErrorKind::NotFound)), paths: vec![path.to_path_buf()] });
+            }
             zx_rt::log(&format!("watch w{} {} -> PathNotFound", self.id, path.display()));
             return Err(Error { kind: ErrorKind::PathNotFound, paths: vec![path.to_path_buf()] });
         }
